@@ -60,6 +60,9 @@ def default_knobs(rng, **over):
     return k
 
 
+_NOVAL = object()
+
+
 class Gen:
     def __init__(self, rng, knobs):
         self.r = rng
@@ -391,6 +394,7 @@ class Gen:
     def path_from_docs(self, ctx, allow_mods=None, for_arg=False, max_len=None, doc=None, want_container=False):
         r = self.r
         doc = doc if doc is not None else r.choice(ctx["docs"])
+        node_val = _NOVAL
         if r.random() < self.k["p_blind_path"]:
             parts = self.blind_parts(ctx)
         else:
@@ -400,7 +404,7 @@ class Gen:
                 nodes = cn or nodes
             if max_len is not None:
                 nodes = [n for n in nodes if len(n[0]) <= max_len] or nodes
-            node_path, _ = r.choice(nodes)
+            node_path, node_val = r.choice(nodes)
             if (
                 self.k["from_str"]
                 and node_path
@@ -415,6 +419,14 @@ class Gen:
             concrete = all(p[0] == "prim" for p in parts)
             if r.random() < 0.35:
                 dmod = r.choice(["dtype", "length", "map_keys", "map_values"])
+                if node_val is not _NOVAL and r.random() < 0.85:
+                    # mostly pick a modifier that is defined for the node the path was derived from
+                    ok = ["dtype"]
+                    if isinstance(node_val, (str, list, dict)):
+                        ok.append("length")
+                    if isinstance(node_val, dict):
+                        ok += ["map_keys", "map_values", "map_keys", "map_values"]
+                    dmod = r.choice(ok)
             if not concrete and r.random() < 0.5:
                 mmod = r.choice(["first", "last", "single", "all"])
         return ("path", parts, dmod, mmod)
